@@ -9,8 +9,11 @@ from checks import common
 def run(tier, seed):
     chk = vlib.Check("C08", "model_checking", tier, seed)
     bindir = vlib.build_harness("checked")
-    vlib.drive(bindir, "codec", seed=seed, thorough=1 if tier == "thorough" else 0, out=chk.workdir, timeout=3600)
-    jobs = [(44, os.path.join(chk.workdir, "codec_generic.ndjson"))] + [(s, os.path.join(chk.workdir, "codec_%d.ndjson" % s)) for s in (44, 65, 87)]
+    jobs = []
+    for rnd, sd in enumerate([seed] if tier == "quick" else [seed, seed + 101, seed + 202]):
+        out = os.path.join(chk.workdir, "c%d" % rnd)
+        vlib.drive(bindir, "codec", seed=sd, thorough=1 if tier == "thorough" else 0, out=out, timeout=3600)
+        jobs += [(44, os.path.join(out, "codec_generic.ndjson"))] + [(s, os.path.join(out, "codec_%d.ndjson" % s)) for s in (44, 65, 87)]
     mism, _ = common.validate_judged(chk, os.path.join(common.TRACE_DIR, "TraceCodec.tla"), jobs, nproc=12, chunk=150)
     for m in mism:
         e = m["event"]
